@@ -5,7 +5,7 @@ Checked on the REAL code (`bempp_cl.api`), for test space on grid A and trial sp
   (scalar)   A_ij = sum_tau sum_p  w_p * ie_tau * phi_i(x_p) * Pot_j(x_p)                          rel. 1e-11
   (Maxwell M) M_ij = sum_tau sum_p w_p * ie_tau * t_i(x_p) . ( H_j(x_p) x n_tau )                   rel. 1e-11
   (Maxwell E) E_ij = the same sum with the electric potential E_j -- only up to quadrature error (the boundary form
-              is integrated by parts on the test side): order ladder with a calibrated shrink criterion.
+              is integrated by parts on the test side): order ladder 2..6 with a calibrated shrink criterion.
 
 `Pot_j`, `H_j`, `E_j` are the library's *potential operators* applied to the j-th trial basis function and evaluated
 at the regular quadrature points of the test grid (`triangle_gauss.rule(order)`, element-major order, which is also
@@ -30,11 +30,14 @@ from vlib import meshgen as mg
 from vlib.common import Ctx, Result
 
 TOL = 1e-11
-# E-field ladder (calibrated on the repaired tree, seeds 0..7, see stats `efield_*`): relative difference between
-# the boundary matrix and the tested potential at orders 2,..,6 must shrink by at least SHRINK from the first to the
-# last rung, the last rung must be below LAST_ABS, and no rung may exceed the first one by more than 20 %.
-E_SHRINK = 0.2
-E_LAST_ABS = 2e-2
+# E-field ladder, calibrated on the repaired tree (quick seeds 0..5, gaps 0.4..1.2 between the bounding spheres, 4..12
+# element grids; see stats `efield_*`): the relative difference between the boundary matrix and the tested potential at
+# orders 2,..,6 was e.g. 1.5e-2, 1.9e-2, 1.2e-3, 4.5e-4, 3.1e-5 -- odd orders can be slightly worse than the preceding
+# even one, the overall decay from order 2 to 6 was 2.0e-3..2.3e-3 and the last rung <= 1.4e-4.  Required: last <=
+# E_SHRINK * first, last <= E_LAST_ABS, no rung above E_BUMP * first.  (A wrong sign / factor gives a flat ladder ~1.)
+E_SHRINK = 0.05
+E_LAST_ABS = 2e-3
+E_BUMP = 2.0
 
 
 # ----------------------------------------------------------------------------------------------------------------
@@ -362,7 +365,7 @@ def _run(ctx, api, DefaultParameters, res, rng, deep):
                 if part == "E":
                     errs = [e for _, e in rungs]
                     first, last = errs[0], errs[-1]
-                    ok = last <= E_SHRINK * first and last <= E_LAST_ABS and max(errs) <= 1.2 * first
+                    ok = last <= E_SHRINK * first and last <= E_LAST_ABS and max(errs) <= E_BUMP * first
                     ladder_rows.append(dict(pair=f"{info['A']}/{info['B']}", gap=info["gap"], k=str(k),
                                             rungs=[(o, float(f"{e:.3e}")) for o, e in rungs]))
                     res.case(("maxwell-E", tag, info["A"], info["B"]), nontrivial=nontrivial,
@@ -374,7 +377,7 @@ def _run(ctx, api, DefaultParameters, res, rng, deep):
                             "maxwell-efield-vs-tested-potential-ladder-snc0-rwg0",
                             f"Maxwell electric field boundary matrix does not approach the tested electric potential as the "
                             f"quadrature order grows: relative differences {[(o, float(f'{e:.2e}')) for o, e in rungs]} "
-                            f"(need last <= {E_SHRINK}*first, last <= {E_LAST_ABS}, no rung above 1.2*first)",
+                            f"(need last <= {E_SHRINK}*first, last <= {E_LAST_ABS}, no rung above {E_BUMP}*first)",
                             ladder=rungs, k=str(k), **info,
                             vertices_A=gA.vertices.tolist(), elements_A=gA.elements.tolist(),
                             vertices_B=gB.vertices.tolist(), elements_B=gB.elements.tolist())
